@@ -121,13 +121,22 @@ FamDef == [
   fname |-> [ alpha |-> Singles(<<"a", ".", "*", "?", "[", "]", "!", "\\">>), maxt |-> 3,
               sa |-> <<"a", ".", "b">>, sn |-> 3, la |-> <<"a", ".">>, ln |-> 3,
               modes |-> { {E, "Filenames"}, {E, "Filenames", "NoGlobStar"}, {E, "Filenames", "NoGlobStar", "GlobLeadingDot"} } ],
+  \* file names, case-insensitive (shopt nocaseglob), as the interpreter passes them
+  fncase |-> [ alpha |-> Singles(<<"a", "B", "*", "?", "[", "]", "-">>), maxt |-> 3,
+              sa |-> <<"a", "A", "b", "B">>, sn |-> 2, la |-> <<"a", "B">>, ln |-> 3,
+              modes |-> { {E, "Filenames", "NoGlobStar", "NoGlobCase"} } ],
+  \* file names with extended operators (shopt extglob)
+  fnext |-> [ alpha |-> Singles(<<"a", ".", "*", ")", "|">>) \o <<<<"@", "(">>, <<"!", "(">>, <<"?", "(">>>>, maxt |-> 3,
+              sa |-> <<"a", ".", "b">>, sn |-> 2, la |-> <<"a", ".">>, ln |-> 3,
+              modes |-> { {E, "Filenames", "NoGlobStar", "ExtendedOperators"},
+                          {E, "Filenames", "NoGlobStar", "ExtendedOperators", "GlobLeadingDot"} } ],
   \* paths: slashes and **
   path  |-> [ alpha |-> Singles(<<"a", ".", "/", "*", "?", "[", "]", "\\">>), maxt |-> 3,
               sa |-> <<"a", ".", "/">>, sn |-> 4, la |-> <<"a", "/">>, ln |-> 4,
               modes |-> { {E, "Filenames"}, {E, "Filenames", "NoGlobStar"},
                           {E, "Filenames", "GlobLeadingDot"} } ],
   \* C18: strings over the documented metacharacters plus multi-byte characters
-  meta  |-> [ alpha |-> Singles(<<"a", "*", "?", "[", "]", "\\", "-", "!", "eacute">>), maxt |-> 3,
+  meta  |-> [ alpha |-> Singles(<<"a", "*", "?", "[", "]", "\\", "eacute">>), maxt |-> 4,
               sa |-> <<"a", "*", "?", "[", "]", "\\", "-", "!", "eacute">>, sn |-> 2, la |-> <<"a", "\\">>, ln |-> 2,
               modes |-> { {E} } ]
 ]
@@ -544,7 +553,22 @@ RECURSIVE StarThenGroup(_)
 StarThenGroup(els) ==
   \/ \E n \in 1..(Len(els) - 1) : els[n].k = "star" /\ els[n + 1].k = "ext" /\ els[n + 1].op \in {"@", "+", "!"}
   \/ \E n \in 1..Len(els) : els[n].k = "ext" /\ \E a \in 1..Len(els[n].alts) : StarThenGroup(els[n].alts[a])
-Quirks(els) == IF StarThenGroup(els) THEN {"starnullable"} ELSE {}
+\*  groupthendot   file names: a pattern that starts with a group and continues with a literal
+\*                 period (`@().a`): bash decides from the group alone whether names with a leading
+\*                 period are candidates and skips ".a", although the period is matched literally.
+Quirks(els, X) ==
+  (IF StarThenGroup(els) THEN {"starnullable"} ELSE {})
+  \cup (IF X.fn /\ ~X.dot /\ Len(els) >= 2 /\ els[1].k = "ext" /\ els[2].k = "lit" /\ els[2].c = "."
+        THEN {"groupthendot"} ELSE {})
+
+\* The one shape of !( ) that internal.ExtendedPatternMatcher documents as supported: a single
+\* group, at the top level, between literal text.
+NegSimple(els) ==
+  /\ Cardinality({ n \in 1..Len(els) : els[n].k = "ext" /\ els[n].op = "!" }) = 1
+  /\ \A n \in 1..Len(els) :
+        \/ els[n].k = "lit"
+        \/ /\ els[n].k = "ext" /\ els[n].op = "!"
+           /\ \A a \in 1..Len(els[n].alts) : ~AnyEl(els[n].alts[a], "neg")
 
 \* ------------------------------------------------------------------------
 \* C18: QuoteMeta / HasMeta / Unescape over pattern texts (default mode).
@@ -609,8 +633,9 @@ View ==
        xacc  |-> <<Match(els, p, X), Match(els, un, X)>>,
        malformed |-> BadOf(els),
        devs |-> devs,
-       quirks |-> Quirks(els),
+       quirks |-> Quirks(els, X),
        hasgroup |-> AnyEl(els, "group"),
+       negsimple |-> NegSimple(els),
        \* what the code is known to compute instead, when a deviation with an
        \* alternative semantics is triggered
        alt  |-> IF devs \cap AltDevs = {} THEN [on |-> FALSE]
